@@ -168,7 +168,7 @@ def work_histories(unit):
 def seed_child(seed, spec):
     env = dict(os.environ)
     env["PYTHONHASHSEED"] = str(seed)
-    env["PYTHONPATH"] = VERIF
+    env["PYTHONPATH"] = os.environ.get("PYTHONPATH") or VERIF
     env["TENSORA_VERIF"] = "1"
     p = subprocess.run([sys.executable, "-m", "vx.px_child"], input=json.dumps({**spec, "seed": seed}),
                        capture_output=True, text=True, env=env, cwd=VERIF)
